@@ -103,6 +103,11 @@ struct Case {
     xfr_after_prev: Vec<bool>,
     /// Stream/Xfr: `Config::set_streaming_response_timeout` (ms) if called.
     st_srt: Option<u32>,
+    /// Per transfer: `Some(m)` = the caller drops its request handle after
+    /// it has got `m` messages of the response stream (0: it starts waiting
+    /// for the first one, gives up after 1 ms and drops the handle) while
+    /// the peer goes on sending; `None` = it reads the stream to its end.
+    xfr_abandon: Vec<Option<u8>>,
 }
 
 const DELAYS: [u32; 11] = [0, 1, 3, 10, 40, 90, 250, 600, 1100, 2500, 6000];
@@ -261,7 +266,7 @@ fn decode(data: &[u8], tr: Tr, thorough: bool) -> Case {
             xfr.push((at, XfrScript { msgs, stall, form: XfrForm::Axfr }));
         }
     }
-    let mut c = Case { tr, n, issue, init_id, dg_rt, dg_retries, dg_maxpar, dg_opt, st_rt, st_idle, ms_rt, defer_err, defer_refused, defer_servfail, lb_burst, ups, xfr, xfr_after_prev: vec![], st_srt: None };
+    let mut c = Case { tr, n, issue, init_id, dg_rt, dg_retries, dg_maxpar, dg_opt, st_rt, st_idle, ms_rt, defer_err, defer_refused, defer_servfail, lb_burst, ups, xfr, xfr_after_prev: vec![], st_srt: None, xfr_abandon: vec![] };
     // Dimensions added by the follow-up rounds are decoded last, and an
     // exhausted input selects the earlier behaviour, so that replay files
     // written before keep their meaning.
@@ -299,6 +304,14 @@ fn decode(data: &[u8], tr: Tr, thorough: bool) -> Case {
                     m.dup = Some(DUP_D[pick(&mut u, DUP_D.len())]);
                 }
             }
+        }
+    }
+    if tr == Tr::Xfr {
+        // round 6: cancellation. The caller abandons a transfer (drops the
+        // request handle) after some messages; the peer does not know and
+        // keeps sending under the transfer's ID.
+        for _ in 0..c.xfr.len() {
+            c.xfr_abandon.push(if pick(&mut u, 3) == 1 { Some(pick(&mut u, 3) as u8) } else { None });
         }
     }
     if matches!(tr, Tr::Redundant | Tr::Lb | Tr::DgStream) {
@@ -360,6 +373,9 @@ fn render(c: &Case) -> String {
             s.push_str(&format!("| axfr z{k} {when} stall={}: ", x.stall));
         } else {
             s.push_str(&format!("| ixfr({:?}) z{k} {when} stall={}: ", x.form, x.stall));
+        }
+        if let Some(Some(m)) = c.xfr_abandon.get(k) {
+            s.push_str(&format!("caller-drops-handle-after-{m}-messages "));
         }
         for m in &x.msgs {
             s.push_str(&format!("[+{}ms recs={} q={} split{}/{}", m.delay, m.recs, m.with_q as u8, m.split, m.gap));
@@ -557,6 +573,9 @@ async fn drive(c: &Case, w: &Arc<World>, sr: Sr) -> Vec<Outcome> {
 
 #[derive(Debug, PartialEq)]
 enum XfrEnd {
+    /// The caller dropped the request handle before the end of the stream
+    /// (`t_done` is the moment of the drop).
+    Abandoned,
     Eof,
     Err(String),
     Hang,
@@ -630,6 +649,7 @@ fn run_world(c: &Case) -> (Vec<Outcome>, Vec<XfrOutcome>, Arc<World>) {
                     let w = w.clone();
                     let at = *at;
                     let form = x.form;
+                    let abandon = c.xfr_abandon.get(k).copied().flatten();
                     let (done_tx, done_rx) = tokio::sync::watch::channel(false);
                     let prev = if c.xfr_after_prev.get(k).copied().unwrap_or(false) { prev_done.clone() } else { None };
                     prev_done = Some(done_rx);
@@ -646,6 +666,19 @@ fn run_world(c: &Case) -> (Vec<Outcome>, Vec<XfrOutcome>, Arc<World>) {
                         drop(conn);
                         let mut msgs = vec![];
                         let end = loop {
+                            if let Some(m) = abandon {
+                                if m == 0 {
+                                    // the request is on its way; the caller
+                                    // loses interest while waiting
+                                    if let Ok(Ok(Some(first))) = timeout(Duration::from_millis(1), gr.get_response()).await {
+                                        msgs.push(first.as_slice().to_vec());
+                                    }
+                                    break XfrEnd::Abandoned;
+                                }
+                                if msgs.len() >= m as usize {
+                                    break XfrEnd::Abandoned;
+                                }
+                            }
                             match timeout(bound, gr.get_response()).await {
                                 Err(_) => break XfrEnd::Hang,
                                 Ok(Ok(Some(m))) => msgs.push(m.as_slice().to_vec()),
@@ -654,8 +687,9 @@ fn run_world(c: &Case) -> (Vec<Outcome>, Vec<XfrOutcome>, Arc<World>) {
                             }
                         };
                         drop(gr);
+                        let t_done = w.now();
                         let _ = done_tx.send(true);
-                        XfrOutcome { msgs, end, t_issue, t_done: w.now() }
+                        XfrOutcome { msgs, end, t_issue, t_done }
                     }));
                 }
                 Arc::new(conn)
@@ -1271,6 +1305,93 @@ fn check(c: &Case, ctx: &mut Ctx) -> CaseResult {
         }
     }
 
+    // 3b. A request is in flight until its response (stream) has ended on
+    // the wire, whether or not the caller still listens: the ID of a transfer
+    // the peer has not finished must not be given to another request on the
+    // connection (RFC 7766, 6.2.1: "clients MUST NOT reuse the DNS Message ID
+    // of an in-flight query on that connection"). Otherwise the rest of that
+    // transfer - later messages may come without question (RFC 5936, 2.2.2) -
+    // answers the new holder of the ID: "concurrent requests sharing one
+    // connection never receive each other's answers". Observed at the peer
+    // (bytes written to the stream). Claimed only while everything that
+    // carried the ID since the transfer started is a proper in-order prefix
+    // of the peer's response stream for it (no duplicate, no foreign message
+    // with that ID, no close): nothing the transport has seen ends the
+    // transfer then.
+    if c.tr == Tr::Xfr {
+        for (k, xo) in xout.iter().enumerate() {
+            let r = c.n + k;
+            let script = &c.xfr[k].1;
+            let Some(pa) = ev.iter().position(|e| matches!(&e.what, What::Recv { req: Some(q), .. } if *q == r)) else { continue };
+            let What::Recv { id: x, .. } = &ev[pa].what else { unreachable!() };
+            let t_held = xo.t_issue.min(ev[pa].t);
+            let abandoned = xo.end == XfrEnd::Abandoned;
+            if abandoned {
+                ctx.class("stream_xfr:transfer-abandoned-by-caller");
+            }
+            let mut next = 0usize;
+            let mut after_drop = 0usize;
+            let mut armed = false;
+            for (pos, e) in ev.iter().enumerate() {
+                match &e.what {
+                    What::Poison(_) => break,
+                    What::Emit { bytes, done, for_req, kind, .. } => {
+                        if bytes.len() < 12 {
+                            break;
+                        }
+                        if wire::header(bytes).map(|h| h.id) != Some(*x) {
+                            continue;
+                        }
+                        if *for_req == r {
+                            match kind {
+                                Kind::Xfr(_, j) if pos > pa && *j as usize == next => {
+                                    next += 1;
+                                    if abandoned && done.map(|d| d > xo.t_done).unwrap_or(false) {
+                                        after_drop += 1;
+                                    }
+                                }
+                                // a duplicate (the copy of the first message
+                                // looks like the closing SOA)
+                                _ => break,
+                            }
+                            if next >= script.msgs.len() {
+                                // the final message is on its way
+                                break;
+                            }
+                        } else if pos > pa || done.map(|d| d + 1000 >= t_held).unwrap_or(true) {
+                            // something else carries the transfer's ID: it can
+                            // end the transfer (error, foreign closing SOA)
+                            break;
+                        }
+                    }
+                    What::Recv { req, id, .. } if pos > pa && *req != Some(r) => {
+                        // (the transfer is unfinished: next < number of messages)
+                        if abandoned && after_drop > 0 && !armed {
+                            armed = true;
+                            ctx.class("stream_xfr:request-arrives-while-abandoned-transfer-goes-on");
+                        }
+                        if !abandoned && !armed {
+                            armed = true;
+                            ctx.class("stream_xfr:request-arrives-while-transfer-goes-on");
+                        }
+                        vensure!(
+                            id != x,
+                            "stream_xfr:id-of-unfinished-transfer-given-to-another-request",
+                            "transfer request {k} (ID {x}, received by the peer at {} us{}) has got {next} of {} messages of its response stream and nothing else under its ID, yet the peer receives request {:?} with the same ID at {} us; case: {}",
+                            ev[pa].t,
+                            if abandoned { format!(", handle dropped by the caller at {} us", xo.t_done) } else { String::new() },
+                            script.msgs.len(),
+                            req,
+                            e.t,
+                            render(c)
+                        );
+                    }
+                    _ => {}
+                }
+            }
+        }
+    }
+
     // 4. response streams (AXFR): what the caller gets is exactly what the
     // peer sent for this transfer, in order
     for (k, xo) in xout.iter().enumerate() {
@@ -1332,7 +1453,7 @@ fn check(c: &Case, ctx: &mut Ctx) -> CaseResult {
         let script = &c.xfr[k].1;
         let Some(p) = ev.iter().position(|e| matches!(&e.what, What::Recv { req: Some(q), .. } if *q == r)) else { continue };
         let What::Recv { id: x, .. } = &ev[p].what else { unreachable!() };
-        let mut clean = !script.stall && emitted.len() == script.msgs.len() && script.msgs.iter().all(|m| m.dup.is_none()) && !foreign_mid_transfer;
+        let mut clean = xo.end != XfrEnd::Abandoned && !script.stall && emitted.len() == script.msgs.len() && script.msgs.iter().all(|m| m.dup.is_none()) && !foreign_mid_transfer;
         let slow_reader = !c.ups[0].st_read_stalls.is_empty();
         let first_recv_t = if slow_reader {
             out.iter().map(|o| o.t_issue).chain(xout.iter().map(|x| x.t_issue)).min().unwrap_or(0)
@@ -1396,6 +1517,7 @@ fn check(c: &Case, ctx: &mut Ctx) -> CaseResult {
         }
         match &xo.end {
             XfrEnd::Eof => ctx.class("stream_xfr:outcome-eof"),
+            XfrEnd::Abandoned => ctx.class("stream_xfr:outcome-abandoned"),
             _ => ctx.class("stream_xfr:outcome-err"),
         }
     }
@@ -1577,6 +1699,10 @@ fn health(cl: &BTreeMap<String, u64>, _thorough: bool) -> Result<(), String> {
         ("stream_xfr:transfer-message-duplicated", 1000),
         ("stream_xfr:transfer-id-recycled-by-transfer", 200),
         ("stream_xfr:late-question-less-message-meets-transfer-with-recycled-id", 5),
+        // round 6: cancellation of transfers
+        ("stream_xfr:transfer-abandoned-by-caller", 1000),
+        ("stream_xfr:request-arrives-while-abandoned-transfer-goes-on", 30),
+        ("stream_xfr:request-arrives-while-transfer-goes-on", 3000),
         ("redundant:claim-must-ok", 50),
         ("load_balancer:claim-must-ok", 50),
     ];
@@ -1592,7 +1718,7 @@ fn health(cl: &BTreeMap<String, u64>, _thorough: bool) -> Result<(), String> {
 pub fn prop() -> Option<Prop> {
     Some(Prop {
         id: "C15",
-        rule: "a case = one client transport over scripted in-process peers, N requests with distinct question names, a fault script per request and upstream (reply kinds, delays, duplicates, frame splits, closes, connect failures) and a transport configuration, all decoded from the generated bytes; non-trivial = at least 2 requests on the transport and the script contains at least one of {replies in reverse order, duplicate, wrong ID, right ID with another request's question, cross-delivered datagram, close / bad length prefix}; distinct by the hash of the decoded case. stream and stream_xfr additionally draw a separate streaming response timeout (set_streaming_response_timeout shorter or longer than the response timeout) and a peer that pauses reading at generated offsets of the octet stream (back-pressure: partial writes); stream_xfr issues 1..3 AXFR or IXFR requests (answers: full zone, single SOA, difference sequence; messages optionally duplicated) at fixed times or one after the other, so that a finished transfer's ID goes to the next one",
+        rule: "a case = one client transport over scripted in-process peers, N requests with distinct question names, a fault script per request and upstream (reply kinds, delays, duplicates, frame splits, closes, connect failures) and a transport configuration, all decoded from the generated bytes; non-trivial = at least 2 requests on the transport and the script contains at least one of {replies in reverse order, duplicate, wrong ID, right ID with another request's question, cross-delivered datagram, close / bad length prefix}; distinct by the hash of the decoded case. stream and stream_xfr additionally draw a separate streaming response timeout (set_streaming_response_timeout shorter or longer than the response timeout) and a peer that pauses reading at generated offsets of the octet stream (back-pressure: partial writes); stream_xfr issues 1..3 AXFR or IXFR requests (answers: full zone, single SOA, difference sequence; messages optionally duplicated) at fixed times or one after the other, so that a finished transfer's ID goes to the next one; the caller of a transfer may drop its request handle after 0..2 messages while the peer goes on sending (cancellation), with later requests arriving while the abandoned transfer is unfinished",
         assumptions: &[
             "tokio current-thread runtime with a paused clock: schedules are those of the deterministic executor times the generated delays; real sockets, kernel behaviour and multi-threaded executors are not covered",
             "hook C15-hook-stream-virtual-clock (cfg domain_verif): stream.rs measures its timers with tokio::time::Instant so that they follow the paused clock",
